@@ -18,14 +18,16 @@
    K is any field (FieldLaws) with an embedding of the integers that is injective below p
    (BaseLaws K p); the *_goldilocks theorems instantiate K := Fp, p := P = 2^64 - 2^32 + 1.
 
-   NOT proved here (listed in the report): a formal statement that evaluation commutes with the
-   embedding of the base field into the extension (the model is one polymorphic function used at both
-   types), and a syntactic degree bound (no constraint AST; see gate_abs_degree in Model/C07Run.v,
-   checked by computation for the parameter grid, and the measured degrees of the harness).
+   The evaluator is ONE polymorphic function; its relational parametricity (Proofs/GatesParam.v) gives
+     C07_eval_hom / C07_eval_embed_goldilocks   the base-field and extension-field evaluators agree
+     C07_constraints_are_polynomials            the constraints are polynomial maps of the row
+     C07_degree_bound                           of degree at most the declared gate degree
+   (the packed and in-circuit Rust evaluators are tied to the same model by the correspondence run).
    LookupGate / LookupTableGate have no gate constraints; their generators belong to C08. *)
 From Coq Require Import ZArith List.
 From Verif Require Import Base.Field Gen.FieldConsts Model.Fp Model.FieldGeneric Model.Gates Model.C07Run
-  Proofs.FpFieldPrime Proofs.GatesLib Proofs.GatesSimple Proofs.GatesBaseSum Proofs.Gates.
+  Base.Poly Model.Fp2 Proofs.FpFieldPrime Proofs.GatesLib Proofs.GatesSimple Proofs.GatesBaseSum Proofs.Gates
+  Proofs.GatesParamInst Proofs.GatesDegree.
 Import ListNotations.
 Local Open Scope nat_scope.
 
@@ -101,6 +103,46 @@ Proof.
   intros row lo hi many Hhi. exact (@filter_nonzero_own Fp _ FpLaws _ _ P Fp_BaseLaws row lo hi many Hhi eq_refl).
 Qed.
 
+(* ---- identical values from the base-field and extension-field evaluators; polynomial degree *)
+
+(* evaluation commutes with every ring homomorphism that respects the embedding of constants *)
+Theorem C07_eval_hom : forall (K1 K2 : Type) (F1 : FieldOps K1) (F2 : FieldOps K2) (O1 : OfBase K1) (O2 : OfBase K2)
+    (phi : K1 -> K2),
+  phi fzero = fzero -> phi fone = fone ->
+  (forall a b, phi (fadd a b) = fadd (phi a) (phi b)) ->
+  (forall a b, phi (fsub a b) = fsub (phi a) (phi b)) ->
+  (forall a b, phi (fmul a b) = fmul (phi a) (phi b)) ->
+  (forall z, phi (of_base z) = of_base z) ->
+  forall (g : gate) (cs ws pi : list K1),
+  gate_eval_unfiltered g (map phi cs) (map phi ws) (map phi pi) = map phi (gate_eval_unfiltered g cs ws pi).
+Proof. exact @eval_hom. Qed.
+
+(* on a base-field row, eval_unfiltered (over Fp2) returns the embedded values of eval_unfiltered_base (over Fp) *)
+Theorem C07_eval_embed_goldilocks : forall (g : gate) (cs ws pi : list Fp),
+  gate_eval_unfiltered g (map emb_fp2 cs) (map emb_fp2 ws) (map emb_fp2 pi)
+  = map emb_fp2 (gate_eval_unfiltered g cs ws pi).
+Proof. exact eval_embed_fp2. Qed.
+
+(* running the evaluator on wire / constant POLYNOMIALS (coefficient lists) yields constraint polynomials
+   whose value at every point x is the constraint value of the row of values at x *)
+Theorem C07_constraints_are_polynomials : forall (K : Type) (FO : FieldOps K) (FL : FieldLaws K) (OB : OfBase K)
+    (x : K) (g : gate) (cs ws pi : list (list K)),
+  map (fun p => peval p x) (eval_polys g cs ws pi)
+  = gate_eval_unfiltered g (map (fun p => peval p x) cs) (map (fun p => peval p x) ws) (map (fun p => peval p x) pi).
+Proof. exact @eval_poly. Qed.
+
+(* ... and, for wire / constant polynomials with at most delta + 1 coefficients (degree <= delta) and a
+   constant public-input hash, every constraint polynomial has at most gate_degree * delta + 1 coefficients.
+   deg_side: BaseSum B >= 1, RandomAccess bits >= 1, CosetInterpolation degree >= 2. *)
+Theorem C07_degree_bound : forall (K : Type) (FO : FieldOps K) (FL : FieldLaws K) (OB : OfBase K)
+    (delta : nat) (g : gate) (cs ws pi : list (list K)),
+  deg_side g ->
+  length cs = gate_num_constants g -> length ws = Nat.max (gate_eval_wires g) (gate_num_wires g) -> length pi = 4 ->
+  Forall (fun p => length p <= delta + 1) cs -> Forall (fun p => length p <= delta + 1) ws ->
+  Forall (fun p => length p <= 1) pi ->
+  Forall (fun p => length p <= gate_degree g * delta + 1) (eval_polys g cs ws pi).
+Proof. exact @constraint_degree_bound. Qed.
+
 (* ---- the hypotheses are satisfiable by concrete non-trivial values (Goldilocks) *)
 Open Scope Z_scope.
 Definition ex_fps (l : list Z) : list Fp := map toFp l.
@@ -136,6 +178,13 @@ Proof. split; [cbn; repeat split; auto with zarith; reflexivity | vm_compute; re
 Example C07_example_filter :
   fval (compute_filter (K := Fp) 5 3 8 (toFp 5) true) = (4 * (4294967295 - 5)) mod P /\
   fval (compute_filter (K := Fp) 5 3 8 (toFp 6) true) = 0.
+Proof. split; vm_compute; reflexivity. Qed.
+
+(* the Poseidon gate on polynomial wires X, X, ..: 123 constraint polynomials, the longest has 7 * 1 + 1 coefficients *)
+Example C07_example_degree_poseidon :
+  let ws := repeat [toFp 0; toFp 1] 135 in
+  length (eval_polys PoseidonGate [] ws (repeat [toFp 5] 4)) = 123%nat /\
+  fold_right Nat.max 0%nat (map (@length Fp) (eval_polys PoseidonGate [] ws (repeat [toFp 5] 4))) = 8%nat.
 Proof. split; vm_compute; reflexivity. Qed.
 
 (* abstract degrees (Model/C07Run.v) of a sample of parameterisations stay within the declared degree *)
